@@ -11,9 +11,10 @@ import (
 )
 
 type varInfo struct {
-	obj  types.Object
-	name string
-	ty   gtype
+	obj   types.Object
+	name  string
+	ty    gtype
+	place *placeInfo // [seq] ty.k == kPlace
 }
 
 // env: the variables in scope (declaration order) and the slice variables that may share their backing array with
@@ -62,10 +63,12 @@ func (e *env) unshare(key string) *env {
 
 // fctx: per-function translation state.
 type fctx struct {
-	t     *Translator
-	fi    *funcInfo
-	used  map[string]bool
-	ntemp int
+	t         *Translator
+	fi        *funcInfo
+	used      map[string]bool
+	ntemp     int
+	tailParam string              // [seq] the parameter standing for a timed tail
+	nilErr    map[*ast.Ident]bool // [ext:T20] occurrences of nil that stand for the nil error
 }
 
 func (c *fctx) fresh(prefix string) string {
@@ -84,7 +87,7 @@ func (c *fctx) declare(e *env, o types.Object, ty gtype) (*env, string) {
 		name = fmt.Sprintf("%s_%d", base, i)
 	}
 	c.used[name] = true
-	return e.with(varInfo{o, name, ty}), name
+	return e.with(varInfo{obj: o, name: name, ty: ty}), name
 }
 
 // ---- aliasing keys ------------------------------------------------------------------------------
@@ -171,6 +174,8 @@ func (c *fctx) constTerm(e ast.Expr) (string, bool) {
 			return "true", true
 		}
 		return "false", true
+	case constant.String: // [ext:T20]
+		return c.strConst20(e, constant.StringVal(tv.Value))
 	}
 	return "", false
 }
@@ -260,6 +265,9 @@ func (c *fctx) wrapIf(g gtype, term string) string {
 	if g.k == kUint {
 		return fmt.Sprintf("(wrap %d %s)", g.bits, term)
 	}
+	if g.k == kInt && g.bits > 0 { // [ext:T20] intN under TransSpec.WrapSigned
+		return fmt.Sprintf("(swrap %d %s)", g.bits, term)
+	}
 	return term
 }
 
@@ -288,6 +296,9 @@ func (c *fctx) expr(e ast.Expr, en *env, k func(string) string) string {
 	case *ast.Ident:
 		if x.Name == "nil" {
 			if _, ok := t.info.Uses[x].(*types.Nil); ok {
+				if c.nilErr[x] { // [ext:T20] the nil error (marked by its context: go/types leaves nil untyped)
+					return k("0")
+				}
 				return k("[]")
 			}
 		}
@@ -296,7 +307,7 @@ func (c *fctx) expr(e ast.Expr, en *env, k func(string) string) string {
 			o = t.info.Defs[x]
 		}
 		if v := en.lookup(o); v != nil {
-			if v.ty.k == kStruct && v.ty.ptr {
+			if (v.ty.k == kStruct && v.ty.ptr) || v.ty.k == kPlace {
 				t.fail(x, "pointer %s used as a value", x.Name)
 			}
 			return k(v.name)
@@ -304,15 +315,21 @@ func (c *fctx) expr(e ast.Expr, en *env, k func(string) string) string {
 		if fn := t.funcValueRef(x); fn != nil { // a function of the package used as a value (trans_func.go)
 			return k(c.funcValueTerm(fn, x))
 		}
+		if s, ok := c.sentinel20(x, o); ok { // [ext:T20] package-level `var ErrX = errors.New("...")`, never assigned
+			return k(s)
+		}
 		t.fail(x, "identifier %s (not a local variable, parameter or constant)", x.Name)
 	case *ast.SelectorExpr:
 		sel := t.info.Selections[x]
 		if sel == nil || sel.Kind() != types.FieldVal {
 			t.fail(x, "selector %s", x.Sel.Name)
 		}
+		if s, ok := c.seqSelector(x, en, k); ok { // [seq] h.f, s[i].f
+			return s
+		}
 		v := c.structVar(x.X, en)
 		t.exprType(x)
-		return k(fmt.Sprintf("(%s_%s %s)", v.ty.st.name, x.Sel.Name, v.name))
+		return k(fmt.Sprintf("(%s_%s %s)", v.ty.st.name, v.ty.st.coqField(x.Sel.Name), v.name)) // [stable]
 	case *ast.UnaryExpr:
 		g := t.exprType(x)
 		switch x.Op {
@@ -329,13 +346,13 @@ func (c *fctx) expr(e ast.Expr, en *env, k func(string) string) string {
 	case *ast.BinaryExpr:
 		return c.binary(x, en, k)
 	case *ast.IndexExpr:
-		if id, ok := ast.Unparen(x.X).(*ast.Ident); ok { // f[T] used as a value
+		if id, ok := ast.Unparen(x.X).(*ast.Ident); ok { // f[T] used as a value (trans_func.go)
 			if fn := t.funcValueRef(id); fn != nil {
 				return k(c.funcValueTerm(fn, x))
 			}
 		}
-		if t.exprType(x.X).k != kSlice {
-			t.fail(x, "index expression on a non-slice")
+		if g := t.exprType(x.X); g.k != kSlice || g.elem != nil { // [seq] a whole struct element is not a value
+			t.fail(x, "index expression on a non-slice (or a struct element used as a value)")
 		}
 		t.exprType(x)
 		return c.expr(x.X, en, func(a string) string {
@@ -348,8 +365,8 @@ func (c *fctx) expr(e ast.Expr, en *env, k func(string) string) string {
 		if x.Slice3 {
 			t.fail(x, "3-index slice expression")
 		}
-		if t.exprType(x.X).k != kSlice {
-			t.fail(x, "slice expression on a non-slice")
+		if g := t.exprType(x.X); g.k != kSlice || g.elem != nil {
+			t.fail(x, "slice expression on a non-slice (or on a slice of structs)")
 		}
 		return c.expr(x.X, en, func(a string) string {
 			lo := func(k2 func(string) string) string {
@@ -405,6 +422,8 @@ func (c *fctx) binary(x *ast.BinaryExpr, en *env, k func(string) string) string 
 			return fmt.Sprintf("do %s <- (if %s then Ret true else (\n%s\n));;\n%s", v, a, rhs, k(v))
 		})
 	}
+	c.markNil20(x.X, x.Y) // [ext:T20] err == nil
+	c.markNil20(x.Y, x.X)
 	return c.expr(x.X, en, func(a string) string {
 		return c.expr(x.Y, en, func(b string) string {
 			if r, ok := c.arith(x.Op, g, a, b, x.Y, k); ok {
@@ -413,6 +432,9 @@ func (c *fctx) binary(x *ast.BinaryExpr, en *env, k func(string) string) string 
 			bin := func(op string) string { return "(" + a + " " + op + " " + b + ")" }
 			fn := func(f string) string { return "(" + f + " " + a + " " + b + ")" }
 			og := t.exprType(x.X)
+			if c.isNilErr20(x.X) { // [ext:T20]
+				og = gtype{k: kErr}
+			}
 			if og.k == kBool {
 				switch x.Op {
 				case token.EQL:
@@ -420,6 +442,11 @@ func (c *fctx) binary(x *ast.BinaryExpr, en *env, k func(string) string) string 
 				case token.NEQ:
 					return k(fn("xorb"))
 				}
+			} else if og.k == kErr && (x.Op == token.EQL || x.Op == token.NEQ) { // [ext:T20] err == nil, err != ErrX
+				if x.Op == token.EQL {
+					return k(bin("=?"))
+				}
+				return k("(negb " + bin("=?") + ")")
 			} else if og.k == kInt || og.k == kUint || og.k == kElem {
 				switch x.Op {
 				case token.EQL:
@@ -461,10 +488,17 @@ func (c *fctx) arith(op token.Token, g gtype, a, b string, y ast.Expr, k func(st
 		if op == token.REM {
 			pf, mf = "Z.rem", "m_rem"
 		}
+		signedQuo := op == token.QUO && g.k == kInt && g.bits > 0 // [ext:T20] MinIntN / -1 wraps
 		if v, ok := c.constInt(y); ok && constant.Sign(v) != 0 {
+			if signedQuo && constant.Compare(v, token.EQL, constant.MakeInt64(-1)) {
+				return k(c.wrapIf(g, fn(pf))), true
+			}
 			return k(fn(pf)), true
 		}
 		v := c.fresh("v")
+		if signedQuo {
+			return fmt.Sprintf("do %s <- %s %s %s;;\n%s", v, mf, a, b, k(c.wrapIf(g, v))), true
+		}
 		return fmt.Sprintf("do %s <- %s %s %s;;\n%s", v, mf, a, b, k(v)), true
 	case token.AND:
 		return k(fn("Z.land")), true
@@ -522,14 +556,20 @@ func (c *fctx) call(x *ast.CallExpr, en *env, k func([]string) string) string {
 			t.fail(x, "conversion")
 		}
 		to, from := t.exprType(x), t.exprType(x.Args[0])
+		if to.str || from.str { // [ext:T20] string <-> []byte, string(byte)
+			return c.strConv20(x, to, from, en, k)
+		}
 		if !((to.k == kInt || to.k == kUint) && (from.k == kInt || from.k == kUint)) && !(to.k == from.k && to.k != kStruct) {
 			t.fail(x, "conversion from %s to %s", t.info.Types[x.Args[0]].Type, t.info.Types[x].Type)
 		}
-		if to.k == kInt && from.k == kUint && from.bits == 64 {
+		if to.k == kInt && to.bits == 0 && from.k == kUint && from.bits == 64 {
 			t.fail(x, "conversion of a 64-bit unsigned value to a signed integer (overflow is not modelled)")
 		}
 		return c.expr(x.Args[0], en, func(a string) string {
 			if to.k == kUint && !(from.k == kUint && from.bits <= to.bits) {
+				return k([]string{c.wrapIf(to, a)})
+			}
+			if to.k == kInt && to.bits > 0 && signedConvWraps20(to, from) { // [ext:T20]
 				return k([]string{c.wrapIf(to, a)})
 			}
 			return k([]string{a})
@@ -543,7 +583,8 @@ func (c *fctx) call(x *ast.CallExpr, en *env, k func([]string) string) string {
 		if b == "cap" && c.sliceKey(x.Args[0], en) == "" {
 			t.fail(x, "cap of something that is not a variable or a field (capacity is modelled as the length)")
 		}
-		return c.expr(x.Args[0], en, func(a string) string { return k([]string{"(zlen " + a + ")"}) })
+		lf := lenFn(t.exprType(x.Args[0])) // [seq] zlenA for slices of structs
+		return c.expr(x.Args[0], en, func(a string) string { return k([]string{"(" + lf + " " + a + ")"}) })
 	case "min", "max":
 		if g := t.exprType(x); g.k != kInt && g.k != kUint {
 			t.fail(x, "%s on non-integers", b)
@@ -561,14 +602,20 @@ func (c *fctx) call(x *ast.CallExpr, en *env, k func([]string) string) string {
 		}
 		return c.args(x.Args[1:], en, func(vs []string) string {
 			v := c.fresh("v")
+			if g := t.exprType(x); g.elem != nil { // [seq] make([]S, n)
+				if len(vs) != 1 {
+					t.fail(x, "make of a slice of structs with a capacity")
+				}
+				return fmt.Sprintf("do %s <- m_makeA zero_%s %s;;\n%s", v, g.elem.name, vs[0], k([]string{v}))
+			}
 			if len(vs) == 2 {
 				return fmt.Sprintf("do %s <- m_make_cap %s %s;;\n%s", v, vs[0], vs[1], k([]string{v}))
 			}
 			return fmt.Sprintf("do %s <- m_make %s;;\n%s", v, vs[0], k([]string{v}))
 		})
 	case "append":
-		if t.exprType(x).k != kSlice {
-			t.fail(x, "append on a non-slice")
+		if g := t.exprType(x); g.k != kSlice || g.elem != nil {
+			t.fail(x, "append on a non-slice (or on a slice of structs)")
 		}
 		return c.args(x.Args, en, func(vs []string) string {
 			if x.Ellipsis != token.NoPos {
@@ -590,36 +637,58 @@ func (c *fctx) call(x *ast.CallExpr, en *env, k func([]string) string) string {
 	default:
 		t.fail(x, "builtin %s", b)
 	}
-	if t.funcValueCall(x) != nil {
+	if t.funcValueCall(x) != nil { // a function value (trans_func.go)
 		return c.callFuncValue(x, en, k)
+	}
+	if s, ok := c.seqCall(x, en, k); ok { // [seq] sync/atomic, runtime.Gosched
+		return s
 	}
 	fn, recv := t.calleeOf(x)
 	if fn == nil {
 		t.fail(x, "call of %s (only functions and methods of the translated package, builtins and conversions)", nodeDesc(ast.Unparen(x.Fun)))
 	}
 	fi := t.funcFor(fn, x)
+	if t.seq.timedTail[fi.goName] { // [seq]
+		t.fail(x, "call of %s, which is translated with a timed tail", fi.goName)
+	}
 	fuel := ""
 	if fi.loops {
 		fuel = " fuel"
 	}
 	var rv *varInfo
+	recvArg := false // [ext:T20] a value receiver of a named integer type is an ordinary first argument
 	if fi.recv != nil {
 		if recv == nil {
 			t.fail(x, "method expression")
 		}
-		rv = c.structVar(recv, en)
-		if fi.writes {
-			for key := range en.shared {
-				if strings.HasPrefix(key, rv.name+".") {
-					t.fail(x, "call of %s, which writes its receiver, while %s may share its array with another variable", fi.goName, key)
+		if fi.recvT.k != kStruct {
+			recvArg = true
+		} else {
+			rv = c.structVar(recv, en)
+			if fi.writes {
+				c.checkNoLivePlace(en, x, func(k string) bool { return strings.HasPrefix(k, rv.name+".") }, "call of "+fi.goName) // [seq]
+				for key := range en.shared {
+					if strings.HasPrefix(key, rv.name+".") {
+						t.fail(x, "call of %s, which writes its receiver, while %s may share its array with another variable", fi.goName, key)
+					}
 				}
 			}
 		}
+	} else if fi.ignoredRecv { // [ext:T20] the callee never mentions its receiver; its expression must be a plain variable
+		if _, ok := ast.Unparen(recv).(*ast.Ident); !ok {
+			t.fail(x, "call of %s through a receiver expression that is not a variable", fi.goName)
+		}
 	}
-	return c.args(x.Args, en, func(vs []string) string {
+	emit := func(rterm string, vs []string) string {
 		app := fi.name + fuel
 		if rv != nil {
 			app += " " + rv.name
+		}
+		if rterm != "" {
+			app += " " + rterm
+		}
+		for _, g := range t.ordered20(fi.greads) { // [ext:T20] package-level state is passed explicitly
+			app += " " + c.globalName20(g, en, x)
 		}
 		for _, v := range vs {
 			app += " " + v
@@ -635,28 +704,39 @@ func (c *fctx) call(x *ast.CallExpr, en *env, k func([]string) string) string {
 		for range fi.results {
 			rs = append(rs, c.fresh("v"))
 		}
-		pat := tuple(rs)
+		var parts []string
 		if rv != nil && fi.writes {
-			if len(rs) == 0 {
-				pat = rv.name
-			} else {
-				pat = "(" + rv.name + ", " + pat + ")"
-			}
-		} else if len(rs) == 0 {
+			parts = append(parts, rv.name)
+		}
+		for _, g := range t.ordered20(fi.gwrites) {
+			parts = append(parts, c.globalName20(g, en, x))
+		}
+		if len(rs) > 0 {
+			parts = append(parts, tuple(rs))
+		}
+		pat := nestPair(parts)
+		if len(parts) == 0 {
 			pat = "_"
 		}
 		if strings.HasPrefix(pat, "(") {
 			pat = "'" + pat
 		}
 		return fmt.Sprintf("do %s <- %s;;\n%s", pat, app, k(rs))
-	})
+	}
+	if recvArg {
+		return c.expr(recv, en, func(r string) string {
+			return c.args(x.Args, en, func(vs []string) string { return emit(r, vs) })
+		})
+	}
+	return c.args(x.Args, en, func(vs []string) string { return emit("", vs) })
 }
 
 // copyCall: copy(dst, src) / copy(dst[a:b], src) with dst a variable or a field; rebinding dst.
 func (c *fctx) copyCall(x *ast.CallExpr, en *env, k func([]string) string) string {
 	t := c.t
-	if len(x.Args) != 2 || t.exprType(x.Args[0]).k != kSlice || t.exprType(x.Args[1]).k != kSlice {
-		t.fail(x, "copy on non-slices")
+	if len(x.Args) != 2 || t.exprType(x.Args[0]).k != kSlice || t.exprType(x.Args[1]).k != kSlice ||
+		t.exprType(x.Args[0]).elem != nil || t.exprType(x.Args[1]).elem != nil {
+		t.fail(x, "copy on non-slices (or on slices of structs)")
 	}
 	dst := ast.Unparen(x.Args[0])
 	var low, high ast.Expr
@@ -719,8 +799,8 @@ func (c *fctx) store(lhs ast.Expr, val string, en *env, k func() string) string 
 		if v == nil {
 			t.fail(x, "assignment to %s (not a local variable)", x.Name)
 		}
-		if v.ty.k == kStruct {
-			t.fail(x, "assignment of a whole struct to %s", x.Name)
+		if v.ty.k == kStruct || v.ty.k == kPlace {
+			t.fail(x, "assignment of a whole struct / pointer to %s", x.Name)
 		}
 		if v.name == val {
 			return k()
@@ -732,7 +812,7 @@ func (c *fctx) store(lhs ast.Expr, val string, en *env, k func() string) string 
 			t.fail(x, "assignment to selector %s", x.Sel.Name)
 		}
 		v := c.structVar(x.X, en)
-		return fmt.Sprintf("let %s := set_%s_%s %s %s in\n%s", v.name, v.ty.st.name, x.Sel.Name, v.name, val, k())
+		return fmt.Sprintf("let %s := set_%s_%s %s %s in\n%s", v.name, v.ty.st.name, v.ty.st.coqField(x.Sel.Name), v.name, val, k()) // [stable]
 	}
 	t.fail(lhs, "assignment to %s", nodeDesc(lhs))
 	return ""
